@@ -461,7 +461,7 @@ def gen_grid():
         pad = lit_rat(r[3])
     else:
         raise Unparsed("anchor offset is not a multiple of width")
-    # inverse_width: 1. / (S * width)
+    # inverse_width: 1. / (S * width)   |   1. / (S * grid_width)  with `grid_width` defined by a match on the dimensionality
     while iw[0] == 'paren':
         iw = iw[1]
     if not (iw[0] == 'bin' and iw[1] == '/' and lit_rat(iw[2]) == 1):
@@ -469,14 +469,47 @@ def gen_grid():
     d = iw[3]
     while d[0] == 'paren':
         d = d[1]
-    if is_path(d, 'width'):
-        span = 1
-    elif d[0] == 'bin' and d[1] == '*' and is_path(d[3], 'width'):
-        span = lit_rat(d[2])
-    elif d[0] == 'bin' and d[1] == '*' and is_path(d[2], 'width'):
-        span = lit_rat(d[3])
-    else:
-        raise Unparsed("inverse_width denominator is not a multiple of width")
+    gw = None
+    for nm in ('width', 'grid_width'):
+        if is_path(d, nm):
+            span, gw = 1, nm
+        elif d[0] == 'bin' and d[1] == '*' and is_path(d[3], nm):
+            span, gw = lit_rat(d[2]), nm
+        elif d[0] == 'bin' and d[1] == '*' and is_path(d[2], nm):
+            span, gw = lit_rat(d[3]), nm
+    if gw is None:
+        raise Unparsed("inverse_width denominator is not a multiple of width / grid_width")
+    shared = False
+    if gw == 'grid_width':
+        # let grid_width = match dimensionality { OneD => width, TwoD => DVec3::new(m, m, width.z), ThreeD => DVec3::splat(width.max_element()) }
+        g = parse_expr_tokens(find_let(body, 'grid_width'))
+        if g[0] != 'match' or not is_path(g[1], 'dimensionality'):
+            raise Unparsed("grid_width is not a match on the dimensionality")
+        arms = {}
+        for pat, guard, val in g[2]:
+            if guard is not None or pat[0] != 'pctor':
+                raise Unparsed("grid_width match arm")
+            while val[0] in ('paren', 'block'):
+                val = val[1] if val[0] == 'paren' else (val[2] if not val[1] and val[2] is not None else val)
+                if val[0] == 'block':
+                    raise Unparsed("grid_width arm is a block with statements")
+            arms[pat[1][-1]] = val
+
+        def is_max_xy(e):
+            while e[0] == 'paren':
+                e = e[1]
+            return (e[0] == 'mcall' and e[2] == 'max' and len(e[3]) == 1 and
+                    {(e[1][0], e[1][2] if e[1][0] == 'field' else None), (e[3][0][0], e[3][0][2] if e[3][0][0] == 'field' else None)} == {('field', 'x'), ('field', 'y')}
+                    and is_path(e[1][1], 'width') and is_path(e[3][0][1], 'width'))
+        one, two, three = arms.get('OneD'), arms.get('TwoD'), arms.get('ThreeD')
+        ok1 = one is not None and is_path(one, 'width')
+        ok2 = (two is not None and two[0] == 'call' and two[1] == ('path', ['DVec3', 'new']) and len(two[2]) == 3 and is_max_xy(two[2][0]) and is_max_xy(two[2][1])
+               and two[2][2][0] == 'field' and two[2][2][2] == 'z' and is_path(two[2][2][1], 'width'))
+        ok3 = (three is not None and three[0] == 'call' and three[1] == ('path', ['DVec3', 'splat']) and len(three[2]) == 1
+               and three[2][0][0] == 'mcall' and three[2][0][2] == 'max_element' and is_path(three[2][0][1], 'width'))
+        if not (ok1 and ok2 and ok3):
+            raise Unparsed("grid_width arms are not (width | (max xy, max xy, z) | splat(max element))")
+        shared = True
     # mantissa mask of iloc
     _, ibody, _ = find_fn(toks, 'iloc')
     mask = parse_expr_tokens(find_let(ibody, 'mantissa_mask'))
@@ -490,7 +523,9 @@ def gen_grid():
            "/-- stored inverse width = 1 / (gridSpan * width) -/",
            "def gridSpan : Rat := (%d : Rat) / %d" % (span.numerator, span.denominator),
            "/-- `mantissa_mask` of `iloc` -/",
-           "def mantissaMask : Nat := %d" % mv]
+           "def mantissaMask : Nat := %d" % mv,
+           "/-- do all active axes share one grid scale (the largest active extent)? `false`: every axis is rescaled with its own width -/",
+           "def gridSharedScale : Bool := %s" % ('true' if shared else 'false')]
     return '\n'.join(out) + '\n'
 
 
@@ -946,7 +981,7 @@ STUBS = {
     'Geom': "",
     'Par': "def parLoops : List (List String) := []\ndef seqLoops : List (List String) := []\ndef sharedStateHits : List String := []\ndef featureOnlyItems : List String := []\n",
     'Space': "def cellLocAxes : List Nat := []\n",
-    'Grid': "def gridPad : Rat := 0\ndef gridSpan : Rat := 1\ndef mantissaMask : Nat := 0\n",
+    'Grid': "def gridPad : Rat := 0\ndef gridSpan : Rat := 1\ndef mantissaMask : Nat := 0\ndef gridSharedScale : Bool := false\n",
 }
 
 
